@@ -32,7 +32,8 @@ def run(run):
     run.rule = ("non-terminating bodies (tight loop, loop calling string/table library functions, pattern matching loop, deep "
                 "recursion) and a terminating control, under 11 wrappers (none, pcall, pcall in a loop, xpcall, xpcall in a loop, "
                 "nested pcall, coroutine, coroutines in a loop, clearing the hook, raising the limit, error-then-loop) and in 7 places "
-                "(top level of the invoked / a required / a data module, after or inside a nested invocation), each "
+                "(top level of the invoked / a required / a data module, after or inside a nested invocation, after sequences of nested "
+                "invocations that fail - missing or broken module, missing function, runtime error - and succeed), each "
                 "followed by benign invocations on the same context; limit 1 s, external watchdog; non-trivial = non-terminating "
                 "body; distinct by (body, wrapper)")
     run.trusted = [
@@ -44,6 +45,7 @@ def run(run):
     ]
     run.prove()
     quick = run.tier == "quick"
+    rng = run.rng
     combos = [(b, w) for b in BODIES for w in WRAPPERS]
     if quick:
         combos = [c for c in combos if c[0] in ("tight", "lib", "finite") or c[1] in ("none", "pcall-loop")]
@@ -73,6 +75,20 @@ def run(run):
     places["nested-invoke-loop"] = {
         "module_src": "local e = {}\nfunction e.main(frame) while true do local x = frame:preprocess('{{#invoke:hangdep2|main}}') end end\nreturn e",
         "extra": {"hangdep2": "local e = {}\nfunction e.main(frame) " + LOOP + " end\nreturn e"}}
+    # the loop comes after a SEQUENCE of nested invocations, each ending in one of the ways an invocation can end (a failing one
+    # followed by a benign one: what the first leaves behind must not make the second look like an outermost invocation)
+    NESTED = {"nomod": "frame:preprocess('{{#invoke:nomodule9|main}}')", "syntax": "frame:preprocess('{{#invoke:syn|main}}')",
+              "nofn": "frame:preprocess('{{#invoke:echo|nofn}}')", "err": "frame:preprocess('{{#invoke:boom|main}}')",
+              "ok": "frame:preprocess('{{#invoke:echo|main|q}}')", "tmpl": "frame:expandTemplate{title='a', args={'q'}}",
+              "pfn": "frame:callParserFunction('#invoke', {'nomodule9', 'main'})"}
+    NEXTRA = {"syn": "this is not lua (", "boom": "local e = {}\nfunction e.main(frame) error('boom') end\nreturn e"}
+    seqs = [["nomod", "ok"], ["syntax", "ok"], ["nofn", "ok"], ["err", "ok"], ["nomod"], ["pfn", "tmpl"]]
+    if not quick:
+        seqs += [[a, b] for a in NESTED for b in NESTED] + [[rng.choice(list(NESTED)) for _ in range(3)] for _ in range(12)]
+    for sq in seqs:
+        stmts = " ".join("local x%d = %s" % (j, NESTED[k]) for j, k in enumerate(sq))
+        places["after-nested-" + "-".join(sq)] = {
+            "module_src": "local e = {}\nfunction e.main(frame) " + stmts + " " + LOOP + " end\nreturn e", "extra": dict(NEXTRA)}
     # the non-terminating invocation comes on the same page (same expand call) right after an invocation that ended in one
     # of the ways an invocation can end
     enders = {"undecodable-result": ("{{#invoke:ender|main}}", "local e = {}\nfunction e.main(frame) return 'caf' .. string.char(233) end\nreturn e"),
